@@ -15,7 +15,7 @@ LINK = ["-Wl,--wrap=lzma_simple_coder_init"]
 TELL_NO, TELL_UNSUP, TELL_ANY, CONCAT, IGNORE, FAILFAST = 1, 2, 4, 8, 0x10, 0x20
 EXTREME = 1 << 31
 RET = {0: "OK", 1: "STREAM_END", 2: "NO_CHECK", 3: "UNSUPPORTED_CHECK", 4: "GET_CHECK", 5: "MEM_ERROR", 6: "MEMLIMIT_ERROR",
-       7: "FORMAT_ERROR", 8: "OPTIONS_ERROR", 9: "DATA_ERROR", 10: "BUF_ERROR", 11: "PROG_ERROR", 12: "SEEK_NEEDED", 99: "HANG"}
+       7: "FORMAT_ERROR", 8: "OPTIONS_ERROR", 9: "DATA_ERROR", 10: "BUF_ERROR", 11: "PROG_ERROR", 12: "SEEK_NEEDED", 98: "RUNAWAY-OUTPUT", 99: "HANG"}
 BCJ = ["x86", "powerpc", "ia64", "arm", "armthumb", "arm64", "sparc", "riscv"]
 BCJ_ALIGN = {"x86": 1, "powerpc": 4, "ia64": 16, "arm": 4, "armthumb": 2, "arm64": 4, "sparc": 4, "riscv": 2}
 
@@ -358,7 +358,7 @@ def sweep_items(rng, n_in, n_out, level, seed):
     it = []
     if level == "full":
         it += ["S:0:%d:1" % n_in, "O:0:%d:1" % min(n_out + 2, 4200)]
-        it += ["B:%d" % k for k in range(8)]
+        it += ["B:%d" % k for k in range(13)]
         it += ["R:%d:12:400:16:16:25" % seed, "R:%d:6:60:%d:%d:10" % (seed + 100, max(1, n_in // 3), max(1, n_out // 3)),
                "R:%d:4:2000:3:3:50" % (seed + 200), "X:%d:24:%d" % (seed, n_out + 3), "N", "B:1", "B:3", "R:%d:6:300:9:9:40" % (seed + 300), "N"]
     elif level == "sample":
@@ -368,6 +368,7 @@ def sweep_items(rng, n_in, n_out, level, seed):
         ostep = max(1, (n_out + 2) // 24)
         it += ["O:%d:%d:%d" % (rng.randrange(ostep), min(n_out + 2, 4200), ostep)]
         it += ["B:%d" % k for k in (0, 3, 6, 7)] if n_in + n_out < 3000 else ["B:0", "B:3"]
+        it += ["B:%d" % k for k in (8, 9, 10, 11, 12)] if n_in + n_out < 20000 else ["B:%d" % rng.choice((9, 10, 12))]
         it += ["R:%d:4:300:16:16:25" % seed, "R:%d:3:40:%d:%d:10" % (seed + 100, max(1, n_in // 3), max(1, n_out // 3)),
                "X:%d:6:%d" % (seed, n_out + 3), "N", "B:3" if n_in + n_out < 3000 else "R:%d:1:200:9:9:40" % (seed + 300), "N"]
     elif level == "light":
@@ -375,11 +376,20 @@ def sweep_items(rng, n_in, n_out, level, seed):
                "R:%d:2:200:%d:%d:20" % (seed, max(1, n_in // 5), max(1, n_out // 5)), "R:%d:1:3000:40:40:30" % (seed + 50)]
         if n_in + n_out < 200000:
             it += ["B:0"]
+        it += ["B:%d" % rng.choice((9, 10, 11, 12))]
     elif level == "mt":
         it += ["S:%d" % rng.randrange(n_in + 1), "R:%d:2:100:%d:%d:20" % (seed, max(1, n_in // 5), max(1, n_out // 5)),
-               "R:%d:1:1500:64:64:30" % (seed + 50)]
+               "R:%d:1:1500:64:64:30" % (seed + 50), "B:%d" % rng.choice((8, 9, 10)), "B:12"]
         if n_in + n_out < 6000:
             it += ["B:0", "B:3"]
+    # handle reuse: a seeded half of the sweeps starts on the process-wide handle that another coder used last (G), and checks
+    # that a brand-new handle gives the reference result (FW); every sweep abandons a run mid-stream now and then (K) so that
+    # the next run re-initialises a handle that was left in the middle of a stream (all other runs re-initialise a handle that
+    # finished with success or with an error).
+    for _ in range(2):
+        it.insert(rng.randrange(len(it) + 1), "K:%d:%d" % (rng.randrange(n_in + 1), rng.choice((1, 1, 2, 3))))
+    if rng.random() < 0.5:
+        it = ["G", "FW"] + it
     return it
 
 
@@ -395,6 +405,8 @@ def est_runs(items, n_in, n_out):
             t += int(p[2])
         elif p[0] == "B":
             t += 8   # many calls
+        elif p[0] in ("G", "K"):
+            pass
         elif p[0] != "N":
             t += 1
     return t
@@ -617,7 +629,7 @@ def build_cases(ctx, H):
             for m in rng.sample(members, 3 if quick else 8):
                 C.sweep(m[0], pl, "f", "mt", len(pl) // 2 + 100, "F", "semt")
             if bs_ck.startswith("4096") or bs_ck.startswith("8192"):
-                enc(members[-1][0], pl, "xz-mt", dict(level="light"))
+                enc(members[-1][0], pl, "xz-mt", dict(level="light", multiblock=True))
 
     # ---- phase A: run the encoders whole-buffer to obtain their output (also the encoders' reference) ----------------
     lines = ["run %s F %s fresh full W" % (c, hx(pl)) for (c, pl, _, _) in enc_jobs]
@@ -663,6 +675,7 @@ def build_cases(ctx, H):
         return level_for(len(comp), len(pl))
 
     sel = made["xz"] if not quick else rng.sample(made["xz"], min(len(made["xz"]), 40))
+    sel += [x for x in made["xz"] if x[2].get("multiblock") and x not in sel]
     for comp, pl, extra in sel:
         lv = dec_level(comp, pl)
         f = rng.choice(sd_flags)
@@ -671,7 +684,7 @@ def build_cases(ctx, H):
             C.sweep("auto:%d:0" % f, comp, "a", lv, len(pl), "F", "gen-xz")
         if rng.random() < 0.5:
             C.sweep("sdmt:%d:%d:%d:0:0" % (rng.choice((0, CONCAT)), rng.choice((1, 2, 4)), rng.choice((0, 0, 1))), comp, "m", "mt", len(pl), "F", "gen-xz")
-        if rng.random() < 0.3:
+        if rng.random() < 0.3 or extra.get("multiblock"):
             C.sweep("fileinfo:0", comp, "i", "mt", 400, "F", "gen-xz")
             ix = xz_index_field(comp)
             if ix is not None:
@@ -872,13 +885,20 @@ def replay_dict(kind, data, cmp_, runs, results, note=""):
 
 
 def confirm(H, data, cmp_, runs):
-    """Re-run the given (coder, action, slicing) runs with fresh streams, one op line each. Returns (differs, results)."""
-    lines = ["run %s %s %s fresh hash %s" % (c, a, hx(data), s) for (c, a, s) in runs]
-    outs = H.run(lines)
+    """Re-run the given (coder, action, slicing) runs with fresh streams. Runs of the same coder share one op line (the first
+    run of a line bounds the output the later ones may produce). Returns (differs, results)."""
+    groups = []
+    for (c, a, s) in runs:
+        if groups and groups[-1][0] == (c, a):
+            groups[-1][1].append(s)
+        else:
+            groups.append(((c, a), [s]))
+    lines = ["run %s %s %s fresh hash %s" % (c, a, hx(data), " ".join(ss)) for ((c, a), ss) in groups]
+    outs = H.run(lines, timeout=600)
     res = []
-    for o in outs:
+    for ((c, a), ss), o in zip(groups, outs):
         r = parse_results(o or "")
-        res.append(r[0] if r else None)
+        res += r if len(r) == len(ss) else [None] * len(ss)
     if any(r is None for r in res):
         return True, [r["text"] if r else "harness-abort" for r in res]
     differs = any(not same(res[0], r, cmp_) for r in res[1:])
